@@ -163,7 +163,8 @@ Fixpoint cleanup_app (f : oracle) (a : app) (x : xt) : list event * option err :
 Definition app_cleanup (f : oracle) (a : app) (x : xt) (frozen : bool) : list event * option err :=
   if frozen then cleanup_app f a x else ctx_cleanup f (xt_exits x).
 
-(* ---- BaseRunner.cleanup(): the translated phase sequence; phases 1-3 only if setup succeeded ---- *)
+(* ---- BaseRunner.cleanup(): the translated phase sequence; phases 1-3 only if setup succeeded;
+   chained by try/finally when runner_cleanup_finally (repaired behaviour, /repo 9bf51ac) ---- *)
 Definition phase_run (f : oracle) (a : app) (x : xt) (setup_ok : bool) (p : N) : list event * option err :=
   if p =? 1 then ((if setup_ok then [EPre] else []), None)
   else if p =? 2 then (if setup_ok then shutdown_app f a else ([], None))
@@ -177,7 +178,12 @@ Fixpoint run_phases (f : oracle) (a : app) (x : xt) (setup_ok : bool) (ps : list
   | p :: t =>
     let '(l, r) := phase_run f a x setup_ok p in
     match r with
-    | Some e => (l, Some e)
+    | Some e =>
+      if runner_cleanup_finally
+      then (* try/finally: the remaining phases still run; the last exception raised is the one that propagates *)
+        let '(l', r') := run_phases f a x setup_ok t in
+        (l ++ l', match r' with Some e' => Some e' | None => Some e end)
+      else (l, Some e)
     | None => let '(l', r') := run_phases f a x setup_ok t in (l ++ l', r')
     end
   end.
